@@ -1497,6 +1497,13 @@ void SPxMainSM<R>::AggregationPS::execute(VectorBase<R>& x, VectorBase<R>& y, Ve
            || cStatus[active_idx] == SPxSolverBase<R>::FIXED)
           && NE(x[active_idx], m_oldlower, this->feastol())))
    {
+      // the kept variable sits at a bound it only inherited from the aggregated one, so it becomes basic and the
+      // aggregated variable nonbasic: the reduced cost of the kept variable has to move into the dual of the removed
+      // row and, from there, into the reduced cost of the aggregated variable
+      R delta = r[active_idx] / m_row[active_idx];
+      y[m_i] += delta;
+      r[m_j] = -delta * aij;
+
       cStatus[active_idx] = SPxSolverBase<R>::BASIC;
       r[active_idx] = 0.0;
       assert(NE(m_upper, m_lower, this->epsilon()));
